@@ -167,11 +167,11 @@ PROPS = {
         "partial": [], "assumptions": CONN_ASSUMPTIONS,
     },
     "C18": {
-        "batches": conn_batches([("c18", 500), ("hold", 100), ("c10", 100)], [("c18", 6000), ("hold", 1000), ("c10", 600)]),
+        "batches": lambda tier: conn_batches([("c18", 500), ("hold", 100), ("c10", 100)], [("c18", 6000), ("hold", 1000), ("c10", 600)])(tier) + ctl_batches("expmt", 100, 3000, per=100)(tier),
         "replay_bin": "pristine", "need": ["wire", "bodies", "seq", "nohang", "hold"], "agr_need": ["wire", "bodies", "seq", "hold"],
         "rule": "Expect: 100-continue present/absent (letter case) x body length {0,1,10,1024,1025,3000} x Content-Length/chunked x programs {answer without reading, "
                 "as_reader once / several times, partial read, over-read} with a client that withholds the body until the server has sent something",
-        "required_tags": ["st:100", "hold:1", "hold:0", "lateask:1"],
+        "required_tags": ["st:100", "hold:1", "hold:0", "lateask:1", "fam:expmt"],
         "partial": [], "assumptions": CONN_ASSUMPTIONS,
     },
     "C07": {
